@@ -145,8 +145,10 @@ WRITERS = [
 
 PLAIN_QUICK_TOO = (('documents', 'update_one upsert'), ('find', 'insert_one'),
                    ('create_index unique', 'delete_one'), ('count_documents', 'replace_one upsert'))
-TTL_QUICK = (('documents', 'insert_many, delete_one'), ('find', 'delete_many'),
-             ('create_index unique', 'insert_many, delete_one'), ('delete_many', 'delete_many'),
+# (on the TTL collection 0 and 3 are gone after the reader's own expiry pass: the writers that
+# matter there are those that touch 1, 2 or new documents)
+TTL_QUICK = (('documents', 'insert_many, delete_one'), ('find', 'delete_one'),
+             ('create_index unique', 'insert_many, delete_one'), ('delete_many', 'delete_one'),
              ('count_documents', 'insert_many, delete_one'))
 
 
@@ -295,7 +297,8 @@ def rerun(setup_name, reader_name, writer_name, k):
 
 def sweep(tier='quick', known=(), kmax=400):
     """returns (coverage dict, [replay dict] of the failing pairs — per pair the earliest
-    preemption point for each clause that fails —, {known class: count}).  known: the classes
+    preemption point for each clause that fails (quick: the earliest failing one only) —,
+    {known class: count}).  known: the classes
     listed in known_findings.json (a problem of such a class is counted, not reported).
     Preemption points: thorough — every step of the reader; quick — the steps at which one of the
     reader's iterations is under way (from one step before its first document to one step after
@@ -331,6 +334,8 @@ def sweep(tier='quick', known=(), kmax=400):
                     failing_pairs += 1
                 seen_clauses.update(p['clause'] for p in fresh)
                 bad.append(describe(setup_name, reader, writer, k, res, fresh))
+                if tier == 'quick':
+                    break                # quick: the earliest failing preemption point will do
     cov = {'pairs': len(rows), 'readers': len(READERS), 'writers': len(WRITERS),
            'schedules_run': runs, 'iterations_judged': iterations,
            'schedules_in_which_the_writer_ran_while_the_reader_was_iterating': contended,
